@@ -230,7 +230,7 @@ def _vary(base, k, j):
     return a * (f + 0.1 * k * r.random(a.shape))
 
 
-def generic_template(ename):
+def generic_template(ename, inplace=False):
     def build():
         import modtable
         ent = [e for e in modtable.entries(0) if e.name == ename][0]
@@ -238,28 +238,42 @@ def generic_template(ename):
         mod, ins, outs = ent.make()
         net = pym.Network(mod)
         outs = list(outs)
-        x = GenericInputs(ins)
+        x = GenericInputs(ins, inplace)
         return net, x, outs[:2], list(ins) + outs, max(ent.tol * 10, 1e-8)
     return build
 
 
 class GenericInputs:
-    def __init__(self, ins):
+    def __init__(self, ins, inplace=False):
         self.ins = list(ins)
-        self.base = [s.state for s in self.ins]
+        self.inplace = inplace
+        self.base = [(s.state.copy() if hasattr(s.state, "copy") else s.state) for s in self.ins]
 
     def set(self, k):
         for j, (s, b) in enumerate(zip(self.ins, self.base)):
-            s.state = _vary(b, k, j)
+            v = _vary(b, k, j)
+            cur = s.state
+            if self.inplace and isinstance(cur, np.ndarray) and isinstance(v, np.ndarray) and cur.shape == v.shape and cur.dtype == v.dtype and cur.ndim > 0:
+                cur[...] = v                 # the caller updates the array the signal holds (same object, new values)
+            elif (self.inplace and sps.issparse(cur) and sps.issparse(v) and cur.format == v.format and cur.shape == v.shape
+                  and cur.nnz == v.nnz and np.array_equal(cur.indices, v.indices) and np.array_equal(cur.indptr, v.indptr)):
+                cur.data[...] = v.data
+            else:
+                s.state = v
 
 
 def generic_names():
     import modtable
-    return ["mod:" + e.name for e in modtable.entries(0) if not e.name.startswith("Scaling/")]
+    names = [e.name for e in modtable.entries(0) if not e.name.startswith("Scaling/")]
+    return ["mod:" + n for n in names] + ["modi:" + n for n in names]
 
 
 def template(tname):
-    return generic_template(tname[4:])() if tname.startswith("mod:") else TEMPLATES[tname]()
+    if tname.startswith("mod:"):
+        return generic_template(tname[4:])()
+    if tname.startswith("modi:"):       # the same, with the inputs updated in place (same array objects)
+        return generic_template(tname[5:], inplace=True)()
+    return TEMPLATES[tname]()
 
 
 def set_input(tname, x, k):
@@ -471,7 +485,8 @@ def run(chk, replay=None):
     good = [b for b in behs + deep if interesting(b)]
     gnames = generic_names()
     for gi, tname in enumerate(gnames):
-        pick = random.Random(chk.seed * 1000 + gi).sample(good, min(len(good), 120 if thorough else 16))
+        nb = (120 if thorough else 16) if tname.startswith("mod:") else (60 if thorough else 8)
+        pick = random.Random(chk.seed * 1000 + gi).sample(good, min(len(good), nb))
         for part in par.chunks(pick, 8):
             jobs.append((tname, part))
     results = par.pmap(_replay_chunk, jobs)
@@ -481,7 +496,7 @@ def run(chk, replay=None):
             chk.case(case, nontrivial=interesting(b))
             if res is not None:
                 i, kind, what = res
-                chk.violation("C03/%s/%s" % (tname.split("(")[0] if not tname.startswith("mod:") else tname.split("/")[0], kind), "%s: %s" % (tname, what), dict(case, steps=b[:i + 1], failing_step=i))
+                chk.violation("C03/%s/%s" % (tname.split("(")[0] if not tname.startswith("mod") else tname.split("/")[0], kind), "%s: %s" % (tname, what), dict(case, steps=b[:i + 1], failing_step=i))
     chk.extra["templates"] = list(TEMPLATES) + gnames
     reset_clears_everything(chk)
 
